@@ -1278,6 +1278,8 @@ class Engine:
                 rn, rd = math.isqrt(n), math.isqrt(d)
                 if rn * rn == n and rd * rd == d:
                     return Fraction(rn, rd)
+                if self.concrete_inputs is not None:
+                    return Fraction(math.sqrt(float(a)))   # validation runs: the value the native libm returns
             za = zreal(a)
             self.oblige(st, 'fpspecial', 'sqrt of negative number', za >= 0, where)
             st.pc = p_and(st.pc, za >= 0)
@@ -1905,26 +1907,85 @@ def _model_vals(m):
 
 
 def _solve(ti):
-    q = _TASKS[ti]
+    q, mode = _TASKS[ti]
     t0 = time.time()
-    r = z3.unknown
     mv = None
-    # portfolio: plain SMT core first (best on the nonlinear real queries met here), then z3's default strategy
-    for mode, share in (('smt', 0.5), ('default', 0.5)):
-        s = z3.SimpleSolver() if mode == 'smt' else z3.Solver()
-        s.set('timeout', max(1000, int(_TMO * share)))
-        for a in _AX:
-            s.add(a)
-        s.add(q)
-        r = s.check()
-        if r == z3.sat:
-            mv = _model_vals(s.model())
-        if r != z3.unknown:
-            break
+    s = z3.SimpleSolver() if mode == 'smt' else z3.Solver()
+    s.set('timeout', _TMO)
+    for a in _AX:
+        s.add(a)
+    s.add(q)
+    r = s.check()
+    if r == z3.sat:
+        mv = _model_vals(s.model())
     return ti, str(r), time.time() - t0, mv
 
 
-def discharge(eng, obls, timeout_ms=60000, axioms=(), jobs=8, max_cases=4096):
+def _run_tasks(n, jobs, hard_cap_s):
+    """one forked child per query (inherits the formulas), hard wall-clock cap enforced by kill:
+    z3's own timeout is soft and nlsat can overrun it by minutes."""
+    import os
+    import pickle
+    import select
+    results = []
+    pending = list(range(n))
+    running = {}   # fd -> (pid, ti, t0, buf)
+    while pending or running:
+        while pending and len(running) < max(1, jobs):
+            ti = pending.pop(0)
+            r, w = os.pipe()
+            pid = os.fork()
+            if pid == 0:
+                os.close(r)
+                try:
+                    out = _solve(ti)
+                except Exception as ex:   # noqa
+                    out = (ti, 'unknown', 0.0, None)
+                try:
+                    os.write(w, pickle.dumps(out))
+                finally:
+                    os._exit(0)
+            os.close(w)
+            running[r] = [pid, ti, time.time(), b'']
+        if not running:
+            continue
+        rl, _, _ = select.select(list(running), [], [], 0.5)
+        now = time.time()
+        for fd in list(running):
+            pid, ti, t0, buf = running[fd]
+            done = False
+            if fd in rl:
+                chunk = os.read(fd, 1 << 20)
+                if chunk:
+                    running[fd][3] = buf + chunk
+                    continue
+                done = True
+            elif now - t0 > hard_cap_s:
+                try:
+                    os.kill(pid, 9)
+                except OSError:
+                    pass
+                done = True
+                running[fd][3] = b''
+            if done:
+                os.close(fd)
+                try:
+                    os.waitpid(pid, 0)
+                except OSError:
+                    pass
+                data = running[fd][3]
+                del running[fd]
+                if data:
+                    try:
+                        results.append(pickle.loads(data))
+                        continue
+                    except Exception:   # noqa
+                        pass
+                results.append((ti, 'unknown', now - t0, None))
+    return results
+
+
+def discharge(eng, obls, timeout_ms=60000, axioms=(), jobs=8, max_cases=4096, modes=('default', 'smt')):
     """decide every obligation: unsat(pc & !cond) = holds within the bound.  Assert obligations are
     split over the harness's vf_split() predicates (exhaustive case analysis, decided in parallel)."""
     global _TASKS, _TMO, _AX, _INPUTS
@@ -1950,30 +2011,40 @@ def discharge(eng, obls, timeout_ms=60000, axioms=(), jobs=8, max_cases=4096):
         if o.kind == 'assert' and splits and 2 ** len(splits) <= max_cases:
             for bits in itertools.product((True, False), repeat=len(splits)):
                 lits = [c if b else z3.Not(c) for c, b in zip(splits, bits)]
-                tasks.append(z3.And([q] + lits))
-                owner.append(oi)
+                for mode in modes:
+                    tasks.append((z3.And([q] + lits), mode))
+                    owner.append((oi, o.cases))
                 o.cases += 1
         else:
-            tasks.append(q)
-            owner.append(oi)
+            for mode in modes:
+                tasks.append((q, mode))
+                owner.append((oi, 0))
             o.cases = 1
     _TASKS, _TMO, _AX, _INPUTS = tasks, timeout_ms, tuple(axioms), eng.inputs
-    results = []
-    if tasks:
-        if jobs > 1 and len(tasks) > 1:
-            ctx = mp.get_context('fork')
-            with ctx.Pool(min(jobs, len(tasks))) as pool:
-                results = list(pool.imap_unordered(_solve, range(len(tasks)), chunksize=1))
-        else:
-            results = [_solve(i) for i in range(len(tasks))]
-    agg = {}
+    results = _run_tasks(len(tasks), jobs, timeout_ms / 1000.0 * 1.15 + 3.0)
+    # portfolio of two z3 strategies per query (default tactic pipeline / plain SMT core): a case is decided
+    # by whichever answers; contradictory answers make the obligation inconclusive
+    per_case = {}
     for ti, r, dt, mv in results:
-        oi = owner[ti]
+        oi, ci = owner[ti]
+        c = per_case.setdefault((oi, ci), {'sat': 0, 'unsat': 0, 'unknown': 0, 'secs': 0.0, 'mv': None})
+        c[r if r in ('sat', 'unsat') else 'unknown'] += 1
+        c['secs'] += dt
+        if mv is not None and c['mv'] is None:
+            c['mv'] = mv
+    agg = {}
+    for (oi, ci), c in per_case.items():
         a = agg.setdefault(oi, {'sat': 0, 'unsat': 0, 'unknown': 0, 'secs': 0.0, 'mv': None})
-        a[r if r in a else 'unknown'] += 1
-        a['secs'] += dt
-        if mv is not None and a['mv'] is None:
-            a['mv'] = mv
+        a['secs'] += c['secs']
+        if c['sat'] and c['unsat']:
+            a['unknown'] += 1
+        elif c['sat']:
+            a['sat'] += 1
+            a['mv'] = a['mv'] or c['mv']
+        elif c['unsat']:
+            a['unsat'] += 1
+        else:
+            a['unknown'] += 1
     for oi, a in agg.items():
         o = obls[oi]
         o.seconds = a['secs']
